@@ -20,6 +20,8 @@ CHECKS = {
  "C04": ("condsim", "exploration", "histories of evaluations of a condition whose sampler is wrapped by a recording proxy and whose residual is a probe: arguments by name at exactly the sampled rows of this evaluation, analytic derivatives, documented reduction; evaluation counts straddle the static resample interval", TECH + "recording-proxy seam on sampler draws + probe residual + closed-form model; R-reduce reference"),
  "C09": ("deeponetsim", "exploration", "histories of fix/forward operations on a DeepONet (state = cached branch features) judged after every forward by the explicit inner product of independently computed features of the most recently fixed functions, batch-order invariance and the plain-network twin (outputs, 1st/2nd input derivatives, parameter gradients)", TECH + "operation histories over cached state against the R-twin reference model (no draw/fault applies once samplers are static grids: stated)"),
  "C14": ("condsim", "exploration", "schedules of construct/evaluate events over conditions sharing user objects, every operation replayed in a solo world built from the same recipe under the same per-operation draw stream; user containers compared by object identity; repeatability of static conditions", TECH + "two-world isolation check over interleaved construct/evaluate schedules with reseeded draw streams"),
+ "C11": ("lawsim", "exploration", "laws as statements about the push-forward of the simulator-owned (fault-free) draw stream: two-sample chi-square + largest cell residual (alpha 1e-9 each) against an independent reference sampler for uniform and Gaussian laws, exact slab occupancy for LHS, calibrated unevenness bound for grids; a statistical alarm is a replayable case", TECH + "owned draw stream (replayable statistical decisions, fixed false-alarm budget) + independent reference sampler"),
+ "C17": ("partialsim", "exploration", "histories of repeated / nested partial evaluation under an owned RNG: free variables, membership, volume, box and sampling agree with the original at the fixed values; behavioural snapshots show every earlier domain unchanged", TECH + "partial-evaluation histories with behavioural snapshots; sampling agreement under owned draws; reference AST substitution"),
  "C13": ("objsim", "exploration", "degenerate use (no draws, no faults): interleaved operation histories over several holders of possibly shared state (wrapper, re-wrap, partial evaluations, deep copies) judged against the R-holders reference model; isolation and name-based routing", TECH + "operation histories over shared-state holders against a reference model (history half of the technique only; no fault applies)"),
  "C16": ("loadersim", "exploration", "one pass over a loader as a history of batches under simulator-chosen shuffle permutations; unique tags make every row attributable: pairing, batch size, coverage, full-data-set aggregation", TECH + "owned shuffle permutations (identity/reverse/rotate/swap faults) + tagged-data conservation/pairing oracle"),
  "C15": ("samplersim", "exploration", "seeded call histories on static samplers (any interleaving of sample/next/len/re-make_static) judged by the R-static age-set model with freshness observed at the seam; adaptive samplers with generated loss vectors judged row by row against R-adaptive using the fresh draw and the uniform numbers observed at the seam", TECH + "call histories under an owned RNG, state-machine reference models"),
@@ -30,6 +32,8 @@ ENG = {
  "trainsim": ("simverif/trainsim.py", "real Solver + real pl.Trainer as world A with simulator-chosen trainer options, crash callbacks and private tmpfs directory; R-loop reference optimisation loop as world B"),
  "condsim": ("simverif/condsim.py", "conditions with recording sampler proxies, probe residuals and closed-form models; shared world vs solo worlds"),
  "deeponetsim": ("simverif/deeponetsim.py", "fix/forward histories on DeepONets with a plain twin network"),
+ "lawsim": ("simverif/lawsim.py", "law tests on simulator-owned fault-free draw streams against the R-geo reference samplers"),
+ "partialsim": ("simverif/partialsim.py", "partial-evaluation histories of parameter-dependent domains"),
  "objsim": ("simverif/objsim.py", "interleaved operations on holders of shared UserFunction state; R-holders model"),
  "loadersim": ("simverif/loadersim.py", "tagged data sets, one epoch as a batch history, simulator-owned shuffle permutations"),
  "samplersim": ("simverif/samplersim.py", "operation histories on sampler expressions / static / adaptive samplers with recording proxies; R-count, R-static, R-adaptive reference models"),
